@@ -3,6 +3,7 @@ extern crate lazy_static;
 extern crate serde_derive;
 
 mod gen;
+mod hist;
 mod util;
 #[macro_use]
 mod world;
